@@ -31,7 +31,10 @@ def work(args):
             F.extract = orig
         fired = {}
         for p, os_ in obs.items():
-            ks = sorted({"%s [%s] %s" % (o.key, o.status[:5], o.why[:110]) for o in os_ if o.bad() and o.status != "unclassified"})
+            if "--abstained" in sys.argv:
+                ks = sorted({"%s [%s] %s" % (o.key, o.status[:5], o.why[:110]) for o in os_ if o.status == "unclassified"})
+            else:
+                ks = sorted({"%s [%s] %s" % (o.key, o.status[:5], o.why[:110]) for o in os_ if o.bad() and o.status != "unclassified"})
             if ks:
                 fired[p] = ks
         return path, "ok", fired
